@@ -4,11 +4,13 @@ import SafeC.DriverHandlers
 import SafeC.DriverFmt
 import SafeC.DriverAlloc
 import SafeC.DriverConv
+import SafeC.DriverSort
 /-!
 `safec_model`: reads op lines (see harness/hx.c), runs the Lean model of the named entry point
 on the same memory layout, prints the model's observation line.
 -/
 open SafeC SafeC.Driver
+open SafeC.DriverSort (sortLine bsLine cycLine)
 
 def tokenMap (line : String) : List (String × String) :=
   (line.trimAscii.toString.splitOn " ").filterMap fun t =>
@@ -28,6 +30,9 @@ def processLine (line : String) : String := Id.run do
     if (lookup m "fn").isNone then return fmtLine id f
   if let some k := lookup m "alloc" then return allocLine id k m
   if let some k := lookup m "conv" then return SafeC.DriverC15.convLine id k m
+  if (lookup m "sort").isSome then return sortLine id m
+  if (lookup m "bs").isSome then return bsLine id m
+  if (lookup m "cyc").isSome then return cycLine id m
   let some fn := lookup m "fn" | return s!"id={id} err=badop"
   let slack := (lookup m "slack").getD "1" != "0"
   let mut regs : Array Region := #[]
